@@ -101,7 +101,7 @@ int sbdf_write_int32(FILE* f, int v)
 
 	sbdf_swap(&v, sizeof(int), 1);
 
-	if (fwrite(&v, sizeof(int), 1, f) != 1)
+	if (fwrite(&v, sizeof(int), 1, f) != 1 || ferror(f))
 	{
 		return SBDF_ERROR_IO;
 	}
@@ -137,7 +137,7 @@ int sbdf_write_int8(FILE* f, int v)
 		return SBDF_ERROR_ARGUMENT_NULL;
 	}
 
-	if (fwrite(&c, sizeof(char), 1, f) != 1)
+	if (fwrite(&c, sizeof(char), 1, f) != 1 || ferror(f))
 	{
 		return SBDF_ERROR_IO;
 	}
@@ -160,7 +160,7 @@ int sbdf_write_string(FILE* f, char const* s)
 	{
 		return error;
 	}
-	if (fwrite(s, 1, (size_t)l, f) != (size_t)l)
+	if (fwrite(s, 1, (size_t)l, f) != (size_t)l || ferror(f))
 	{
 		return SBDF_ERROR_IO;
 	}
@@ -447,7 +447,7 @@ int sbdf_write_7bitpacked_int32(FILE* f, int v)
 			uch |= 0x80;
 		}
 
-		if (fwrite(&uch, sizeof(uch), 1, f) != 1)
+		if (fwrite(&uch, sizeof(uch), 1, f) != 1 || ferror(f))
 		{
 			return SBDF_ERROR_IO;
 		}
